@@ -43,5 +43,5 @@ void gbuf_free(mp_ptr p);
 /* check mpz format rules (no leading zero limb, |size| <= alloc, alloc >= 1) */
 int z_wf(mpz_srcptr z);
 
-extern const op_t ops_basic[], ops_mul[], ops_div[], ops_bit[], ops_misc[];
+extern const op_t ops_basic[], ops_mul[], ops_div[], ops_bit[], ops_misc[], ops_alias[];
 #endif
